@@ -69,8 +69,8 @@ def main(tier, replay=None):
     R = vlib.Result(PROP, tier)
     R.cov["rule"] = ("S2: scenarios {file/directory artifact, first commit / recommit over an old manifest, link/copy, rename-able / other-device cache, "
                      "checkout link/copy, stage add/remove}; the real binary runs under a ptrace stepper that numbers its file-system mutating calls; "
-                     "the trace (one worker) is compared with the Lean model's trace, then the command is re-run and SIGKILLed at the entry of the k-th "
-                     "call for EVERY k; oracle on each post-kill tree: every tracked byte string retrievable, no object under a wrong name, stage files "
+                     "the trace (one worker) is compared with the Lean model's trace, then the command is re-run and killed at the entry of the k-th "
+                     "call for EVERY k, once with SIGKILL and once with a catchable signal (SIGTERM/SIGINT); oracle on each post-kill tree: every tracked byte string retrievable, no object under a wrong name, stage files "
                      "and index old-or-new; non-trivial = k strictly inside the operation")
     R.cov["checker_cmd"] = "cd lean && lake build DudModel.Props.C03 && lake env lean <audit file: #print axioms of every theorem>"
     R.cov["trusted_base"] = vlib.TRUSTED_COMMON + ["kernel: rename and O_EXCL are atomic; process kill, not power loss (page-cache durability not modelled)",
@@ -124,13 +124,14 @@ def main(tier, replay=None):
                         R.cov["traces_validated_against_impl"] += 1
                 if outside:
                     R.violation(dict(kind="property-violated-on-implementation", scenario=c["id"], violations=["mutating call outside project/cache/config: %s" % outside[:3]]))
-                # kill at every k
-                for k in range(1, n + 1):
+                # kill at every k: SIGKILL, and a catchable termination signal (SIGTERM / SIGINT: `kill`, Ctrl-C, a batch system)
+                kills = [(k, None) for k in range(1, n + 1)] + [(k, 15 if k % 2 else 2) for k in range(1, n + 1)]
+                for k, sig in kills:
                     sc.restore()
-                    rc2, raw2, se2 = sc.run(stepper, c["cmd"], kill=k)
+                    rc2, raw2, se2 = sc.run(stepper, c["cmd"], kill=k, sig=sig)
                     after = sc.snapshot()
                     total_k += 1
-                    R.count("%s@%d" % (c["id"], k), 1 < k < n)
+                    R.count("%s@%d%s" % (c["id"], k, "" if sig is None else "/sig%d" % sig), 1 < k < n)
                     v = s2.crash_oracle(before, after, stage_old, stage_new, before["meta"], clean["meta"])
                     unknown = []
                     for tag, text in v:
@@ -141,6 +142,7 @@ def main(tier, replay=None):
                             unknown.append(text)
                     if unknown:
                         R.violation(dict(kind="property-violated-on-implementation", scenario=c["id"], command=c["cmd"], kill_at=k, of=n,
+                                         signal="SIGKILL" if sig is None else ("SIGTERM" if sig == 15 else "SIGINT"),
                                          trace=canon[max(0, k - 3):k + 1], violations=unknown[:4],
                                          case=s1eval.case_json({k_: v_ for k_, v_ in c.items() if k_ != "extra_stage"})))
                         break
